@@ -253,4 +253,87 @@ theorem attribToPassOn_perm {cur₁ cur₂ el₁ el₂ : Attrs} (hc : cur₁.Per
   exact inheritAttrib_perm hc ndc _ _ _ _
 
 
+theorem setKV_keys (m : List (String × String)) (k v : String) :
+    (Style.setKV m k v).map (·.1) = if m.any (·.1 == k) then m.map (·.1) else m.map (·.1) ++ [k] := by
+  unfold Style.setKV
+  split
+  · simp only [List.map_map]
+    congr 1
+    funext x
+    obtain ⟨a, b⟩ := x
+    simp only [Function.comp]
+    split <;> rfl
+  · simp
+
+theorem setKV_nodup (m : List (String × String)) (k v : String) (nd : (m.map (·.1)).Nodup) :
+    ((Style.setKV m k v).map (·.1)).Nodup := by
+  rw [setKV_keys]
+  split
+  · exact nd
+  · rename_i h
+    rw [List.nodup_append]
+    refine ⟨nd, by simp, ?_⟩
+    intro a ha b hb
+    simp only [List.mem_singleton] at hb
+    subst hb
+    intro hab
+    subst hab
+    apply h
+    obtain ⟨x, hx, e⟩ := List.mem_map.mp ha
+    exact List.any_eq_true.mpr ⟨x, hx, by simp [e]⟩
+
+theorem setKV_perm {m₁ m₂ : List (String × String)} (h : m₁.Perm m₂) (k v : String) :
+    (Style.setKV m₁ k v).Perm (Style.setKV m₂ k v) := by
+  unfold Style.setKV
+  rw [h.any_eq]
+  split
+  · exact h.map _
+  · exact h.append_right _
+
+theorem foldl_setKV_perm (as : List (String × String)) {m₁ m₂ : List (String × String)} (h : m₁.Perm m₂)
+    (nd : (m₁.map (·.1)).Nodup) :
+    (as.foldl (fun m (kv : String × String) => Attrs.set m kv.1 kv.2) m₁).Perm
+      (as.foldl (fun m (kv : String × String) => Attrs.set m kv.1 kv.2) m₂) ∧
+    ((as.foldl (fun m (kv : String × String) => Attrs.set m kv.1 kv.2) m₁).map (·.1)).Nodup := by
+  induction as generalizing m₁ m₂ with
+  | nil => exact ⟨h, nd⟩
+  | cons a as ih =>
+    simp only [List.foldl_cons]
+    exact ih (setKV_perm h a.1 a.2) (setKV_nodup m₁ a.1 a.2 nd)
+
+theorem del_perm {m₁ m₂ : Attrs} (h : m₁.Perm m₂) (k : String) : (Attrs.del m₁ k).Perm (Attrs.del m₂ k) := h.filter _
+
+theorem del_nodup (m : Attrs) (k : String) (nd : (m.map (·.1)).Nodup) : ((Attrs.del m k).map (·.1)).Nodup := by
+  unfold Attrs.del
+  exact nd.sublist ((List.filter_sublist).map _)
+
+/-- C16: what an element hands down to its children does not depend on the order in which its attributes are written —
+    also when it carries a `style` attribute, whose declarations are spelled out first (`_attrib_to_pass_on` after
+    fix a1858b9): two elements with the same tag whose attribute lists are permutations of each other pass on the same
+    context -/
+theorem attribToPassOnEl_perm (cur : Attrs) (u₁ u₂ : Nat) (t : String) (a₁ a₂ : Attrs) (c₁ c₂ : List Node)
+    (h : a₁.Perm a₂) (nd : (a₁.map (·.1)).Nodup) (ndc : (cur.map (·.1)).Nodup) :
+    Cascade.attribToPassOnEl cur (.elem u₁ t a₁ c₁) = Cascade.attribToPassOnEl cur (.elem u₂ t a₂ c₂) := by
+  unfold Cascade.attribToPassOnEl Cascade.ownAttribForPassOn
+  simp only [Node.attrs, Node.tag]
+  have hs : Attrs.get a₁ "style" = Attrs.get a₂ "style" := get_perm h nd "style"
+  rw [← hs]
+  cases hst : Attrs.get a₁ "style" with
+  | none =>
+    simp only [bind, Except.bind, pure, Except.pure]
+    exact attribToPassOn_perm (List.Perm.refl cur) h ndc nd
+  | some st =>
+    simp only
+    by_cases hsh : (List.lookup (Node.stripNs t) Gen.shapeFields).isSome = true
+    · simp only [hsh, if_true, bind, Except.bind, pure, Except.pure]
+      exact attribToPassOn_perm (List.Perm.refl cur) h ndc nd
+    · simp only [hsh, Bool.false_eq_true, if_false]
+      cases hp : Style.parseDecls (fun _ => true) (fun _ => true) st with
+      | error e => simp [bind, Except.bind]
+      | ok r =>
+        obtain ⟨assigned, rest⟩ := r
+        simp only [bind, Except.bind, pure, Except.pure]
+        obtain ⟨hperm, hnd⟩ := foldl_setKV_perm assigned (del_perm h "style") (del_nodup a₁ "style" nd)
+        exact attribToPassOn_perm (List.Perm.refl cur) hperm ndc hnd
+
 end PicoSVG.Props.C16
